@@ -79,11 +79,21 @@ Qed.
 Theorem C15_grouped_view :
   forall (V : Type) (dflt : string -> V) nm (args : list (@garg V)),
     Forall (arg_ok gen_reserved) args -> List.concat (map (@arg_members V) args) <> [] ->
-    group_ok gen_reserved (p_group_make gen_reserved gen_facts nm args) /\
-    gmembers (p_group_make gen_reserved gen_facts nm args) = List.concat (map (@arg_members V) args) /\
-    p_group_view gen_reserved dflt gen_facts (p_group_make gen_reserved gen_facts nm args)
+    group_ok gen_reserved (p_group_make gen_reserved gen_group_attrs gen_facts nm args) /\
+    gmembers (p_group_make gen_reserved gen_group_attrs gen_facts nm args) = List.concat (map (@arg_members V) args) /\
+    p_group_view gen_reserved dflt gen_facts (p_group_make gen_reserved gen_group_attrs gen_facts nm args)
     = ref_group_view gen_reserved dflt nm (List.concat (map (@arg_members V) args)).
-Proof. intros V dflt. exact (group_view_facts gen_reserved dflt gen_ts gen_facts eq_refl eq_refl). Qed.
+Proof. intros V dflt. exact (group_view_facts gen_reserved dflt gen_ts gen_group_attrs gen_facts eq_refl eq_refl). Qed.
+
+(* in particular: a group built from nested groups has exactly the flat view of the group built from the flattened
+   list of member records *)
+Theorem C15_nested_group_flattens :
+  forall (V : Type) (dflt : string -> V) nm (args : list (@garg V)),
+    Forall (arg_ok gen_reserved) args -> List.concat (map (@arg_members V) args) <> [] ->
+    p_group_view gen_reserved dflt gen_facts (p_group_make gen_reserved gen_group_attrs gen_facts nm args) =
+    p_group_view gen_reserved dflt gen_facts
+      (p_group_make gen_reserved gen_group_attrs gen_facts nm (map (@ARec V) (List.concat (map (@arg_members V) args)))).
+Proof. intros V dflt. exact (nested_flatten_facts gen_reserved dflt gen_ts gen_group_attrs gen_facts eq_refl eq_refl). Qed.
 
 (* setting through the group goes to the first member that has the slot *)
 Theorem C15_grouped_set :
@@ -93,7 +103,7 @@ Theorem C15_grouped_set :
             (match first_index gen_reserved k (gmembers g) with
              | Some i => upd_nth i (fun m => rec_set gen_reserved m k v) (gmembers g)
              | None => gmembers g
-             end) (gtab g).
+             end) (gtab g) (gattr g).
 Proof. intros V. exact (group_set_ref gen_reserved). Qed.
 
 (* ---- originals unchanged: every function of the model is pure (it cannot modify its arguments; the harness
@@ -119,10 +129,10 @@ Proof. intros V. exact (group_set_frame gen_reserved). Qed.
 Theorem C15_grouped_replace :
   forall (V : Type) (vver : V) (dflt : string -> V) (g : @group V) (kw : list (string * V)),
     Forall (wf gen_reserved) (gmembers g) -> NoDup (keys kw) ->
-    p_group_replace gen_reserved vver dflt gen_facts g kw =
-    option_map (fun ms => p_group_make gen_reserved gen_facts (gname g) (map (@ARec V) ms))
+    p_group_replace gen_reserved vver dflt gen_group_attrs gen_facts g kw =
+    option_map (fun ms => p_group_make gen_reserved gen_group_attrs gen_facts (gname g) (map (@ARec V) ms))
                (ref_group_replace gen_reserved vver (gmembers g) kw).
-Proof. intros V vver dflt. exact (group_replace_facts gen_reserved vver dflt gen_ts gen_facts eq_refl eq_refl). Qed.
+Proof. intros V vver dflt. exact (group_replace_facts gen_reserved vver dflt gen_ts gen_group_attrs gen_facts eq_refl eq_refl). Qed.
 
 (* ---- Record._replace and RecordFieldRewriter change only the named fields ---- *)
 Theorem C15_replace_project_only_named :
@@ -180,11 +190,25 @@ Definition w_grp : @group val := group_make gen_reserved "grp/x" [ARec w_m1; ARe
 Theorem C15_grouped_replace_prefix_refuted :
   Forall (wf gen_reserved) (gmembers w_grp) /\
   option_map (fun g => map (fun m => rec_get gen_reserved m "x") (gmembers g))
-             (p_group_replace gen_reserved w_ver w_dflt (unfix_group_replace gen_facts) w_grp [("z", VTok 25%N)])
+             (p_group_replace gen_reserved w_ver w_dflt gen_group_attrs (unfix_group_replace gen_facts) w_grp [("z", VTok 25%N)])
   = Some [Some (VTok 21%N); Some (VTok 21%N)] /\
   option_map (map (fun m => rec_get gen_reserved m "x")) (ref_group_replace gen_reserved w_ver (gmembers w_grp) [("z", VTok 25%N)])
   = Some [Some (VTok 21%N); Some (VTok 23%N)].
 Proof. exact (conj (Forall_wfb val gen_reserved (gmembers w_grp) eq_refl) (conj eq_refl eq_refl)). Qed.
+
+(* GroupedRecord('grp/o', [GroupedRecord('grp/i', [probe/user(name='alice', uid)])]): before 9fb63bd the outer group mapped
+   'name' to the nested group OBJECT, whose own attribute `name` was served instead of the member's value (here: not a
+   member value at all, None), while the flat view of the flattened members has 'alice' *)
+Definition w_user : @rec val :=
+  mkRec "probe/user" [("name", ("string", VName "alice")); ("uid", ("varint", VTok 31%N))] [VNone; VNone; VTok 2%N; w_ver].
+Definition w_nested (F : facts) : @group val :=
+  p_group_make gen_reserved gen_group_attrs F "grp/o" [AGrp (p_group_make gen_reserved gen_group_attrs F "grp/i" [ARec w_user])].
+Theorem C15_nested_group_prefix_refuted :
+  map (@fval val) (rfields (p_group_view gen_reserved w_dflt (unfix_nested gen_facts) (w_nested (unfix_nested gen_facts))))
+  = [VNone; VTok 31%N] /\
+  map (@fval val) (rfields (ref_group_view gen_reserved w_dflt "grp/o" [w_user])) = [VName "alice"; VTok 31%N] /\
+  rec_eqb (p_group_view gen_reserved w_dflt gen_facts (w_nested gen_facts)) (ref_group_view gen_reserved w_dflt "grp/o" [w_user]) = true.
+Proof. exact (conj eq_refl (conj eq_refl eq_refl)). Qed.
 
 (* non-vacuity: concrete records and a nested group meet the hypotheses *)
 Example C15_hyp_satisfiable :
